@@ -664,6 +664,24 @@ impl From<Handle> for SerializableHandle {
     }
 }
 
+/// The nodes that are serialized between the tags of `node`: for a template element the
+/// children of its template contents (where the HTML tree builder puts them), followed by the
+/// node's own children (where the XML tree builder puts them).
+fn serialized_children(node: &Handle) -> Vec<Handle> {
+    let mut children = Vec::new();
+    if let NodeData::Element {
+        ref template_contents,
+        ..
+    } = node.data
+    {
+        if let Some(contents) = template_contents.borrow().as_ref() {
+            children.extend(contents.children.borrow().iter().cloned());
+        }
+    }
+    children.extend(node.children.borrow().iter().cloned());
+    children
+}
+
 impl Serialize for SerializableHandle {
     fn serialize<S>(&self, serializer: &mut S, traversal_scope: TraversalScope) -> io::Result<()>
     where
@@ -673,11 +691,9 @@ impl Serialize for SerializableHandle {
         match traversal_scope {
             IncludeNode => ops.push_back(SerializeOp::Open(self.0.clone())),
             ChildrenOnly(_) => ops.extend(
-                self.0
-                    .children
-                    .borrow()
-                    .iter()
-                    .map(|h| SerializeOp::Open(h.clone())),
+                serialized_children(&self.0)
+                    .into_iter()
+                    .map(SerializeOp::Open),
             ),
         }
 
@@ -694,11 +710,12 @@ impl Serialize for SerializableHandle {
                             attrs.borrow().iter().map(|at| (&at.name, &at.value[..])),
                         )?;
 
-                        ops.reserve(1 + handle.children.borrow().len());
+                        let children = serialized_children(&handle);
+                        ops.reserve(1 + children.len());
                         ops.push_front(SerializeOp::Close(name.clone()));
 
-                        for child in handle.children.borrow().iter().rev() {
-                            ops.push_front(SerializeOp::Open(child.clone()));
+                        for child in children.into_iter().rev() {
+                            ops.push_front(SerializeOp::Open(child));
                         }
                     },
 
